@@ -41,6 +41,15 @@ type adapter struct {
 	mul      func(k *big.Int, p pt) pt
 	mulgen   func(k *big.Int) pt
 	combined func(m, n *big.Int, q pt) pt
+	// short-Weierstrass APIs: hand over / render an arbitrary reference point (not only multiples of G);
+	// cof is the cofactor by which lifted curve points are multiplied to land in the prime-order group (nil = 1).
+	wc   *curves.WCurve
+	mkW  func(p curves.WPoint) pt
+	encW func(p curves.WPoint) string
+	cof  *big.Int
+	// projective: the API keeps points in a non-affine internal form, so operands that come out of
+	// other operations (z != 1) are a different input class than freshly decoded ones.
+	projective bool
 	// mulFactor is the documented extra factor of the variable-base multiplication (392 for FourQ, else nil).
 	mulFactor *big.Int
 	// combinedKey classifies a CombinedMult mismatch (may be nil).
@@ -171,6 +180,41 @@ func drawRelated(t *rapid.T, ad *adapter, a *big.Int, label string) (*big.Int, s
 	return b.Mod(b, ad.r), rel
 }
 
+// unnormalised returns a·G as the output of library operations, i.e. in whatever internal
+// (projective) form they leave it, without any normalisation in between. The value is checked
+// by the caller's comparisons through enc (which normalises a copy).
+func unnormalised(t *rapid.T, ad *adapter, a *big.Int, label string) (pt, string) {
+	kinds := []string{"sum"}
+	if ad.dbl != nil {
+		kinds = append(kinds, "double")
+	}
+	if ad.neg != nil {
+		kinds = append(kinds, "neg-of-sum")
+	}
+	if ad.mul != nil && ad.mulFactor == nil {
+		kinds = append(kinds, "multiple")
+	}
+	kind := rapid.SampledFrom(kinds).Draw(t, label+".form")
+	c, _ := drawExp(t, ad, label+".c")
+	switch kind {
+	case "double":
+		h := new(big.Int).Mul(a, new(big.Int).ModInverse(big.NewInt(2), ad.r))
+		return ad.dbl(ad.mk(h.Mod(h, ad.r))), kind
+	case "neg-of-sum":
+		// −((−a − c)G + cG)
+		d := new(big.Int).Neg(new(big.Int).Add(a, c))
+		return ad.neg(ad.add(ad.mk(d.Mod(d, ad.r)), ad.mk(c))), kind
+	case "multiple":
+		if c.Sign() == 0 {
+			c = big.NewInt(5)
+		}
+		h := new(big.Int).Mul(a, new(big.Int).ModInverse(c, ad.r))
+		return ad.mul(c, ad.mk(h.Mod(h, ad.r))), kind
+	}
+	d := new(big.Int).Sub(a, c)
+	return ad.add(ad.mk(d.Mod(d, ad.r)), ad.mk(c)), kind
+}
+
 func be(k *big.Int, n int) []byte { return k.FillBytes(make([]byte, n)) }
 
 func le(k *big.Int, n int) []byte { return vlib.LE(k, n) }
@@ -196,6 +240,27 @@ func groupLaw(t *rapid.T, ad *adapter) {
 	if got, want := ad.enc(P), ad.want(a); got != want {
 		// the harness could not even hand the point over
 		t.Fatalf("SELFTEST-FAIL %s: constructed point differs from the reference: %s vs %s", ad.name, got, want)
+	}
+	if ad.projective && ad.add != nil && rapid.IntRange(0, 2).Draw(t, "unnormalised") > 0 {
+		// operands in the internal form left by other operations (z != 1)
+		var fp, fq string
+		P, fp = unnormalised(t, ad, a, "pform")
+		Q, fq = unnormalised(t, ad, b, "qform")
+		vlib.Class(sub, "operands=unnormalised")
+		vlib.Class(sub, "P-form="+fp)
+		desc += " [P as " + fp + ", Q as " + fq + "]"
+		if got, want := ad.enc(P), ad.want(a); got != want {
+			if mismatch(t, ad, "Add", "building-"+fp, got, want, desc) {
+				return
+			}
+		}
+		if got, want := ad.enc(Q), ad.want(b); got != want {
+			if mismatch(t, ad, "Add", "building-"+fq, got, want, desc) {
+				return
+			}
+		}
+	} else {
+		vlib.Class(sub, "operands=affine")
 	}
 	sum := new(big.Int).Add(a, b)
 	if ad.add != nil {
@@ -350,11 +415,16 @@ func combinedCase(t *rapid.T, ad *adapter) {
 	vlib.Class(sub, "m:"+mcls)
 	vlib.Class(sub, "n:"+ncls)
 	Q := ad.mk(b)
+	form := "affine"
+	if ad.projective && ad.add != nil && rapid.Bool().Draw(t, "unnormalised") {
+		Q, form = unnormalised(t, ad, b, "qform")
+	}
+	vlib.Class(sub, "Q-form="+form)
 	e := new(big.Int).Mul(n, b)
 	e.Add(e, m)
 	want := ad.want(e)
 	got := ad.enc(ad.combined(m, n, Q))
-	desc := fmt.Sprintf("Q=%s·G (%s) m=%s n=%s (%s)", b.Text(16), qcls, m.Text(16), n.Text(16), rel)
+	desc := fmt.Sprintf("Q=%s·G (%s, %s) m=%s n=%s (%s)", b.Text(16), qcls, form, m.Text(16), n.Text(16), rel)
 	if got != want {
 		class := "mismatch"
 		if ad.combinedKey != nil {
@@ -529,4 +599,133 @@ func sweep(t *testing.T, ad *adapter, span int) {
 	if vlib.Shard == 0 {
 		vlib.Exhaustive(fmt.Sprintf("C13 %s: CombinedMult(m,n,Q) for 0 ≤ m,n ≤ %d and %d structured Q (small and dyadic-fraction multiples of G, identity)", ad.name, g, len(qs)), int64(len(qs)*(g+1)*(g+1)), "all shards together")
 	}
+}
+
+// specialPointsW builds points straight from the curve equation: x = 0 (y = ±√b when b is a square),
+// x = ±1, ±2, … (solve for y). Their discrete logarithms are unknown, so they never come out of the
+// a·G generator. Curves of prime order have no point with y = 0. With a cofactor the lifted points are
+// multiplied by it (then x is no longer special, but the point is still independent of G).
+func specialPointsW(ad *adapter) []curves.WPoint {
+	c, f := ad.wc, ad.wc.F
+	var out []curves.WPoint
+	for _, xi := range []int64{0, 1, -1, 2, -2, 3, -3, 4, 5, 6, 7} {
+		x := f.Int(xi)
+		rhs := f.Add(f.Add(f.Mul(f.Sqr(x), x), f.Mul(c.A, x)), c.B)
+		y, ok := f.Sqrt(rhs)
+		if !ok {
+			continue
+		}
+		for _, p := range []curves.WPoint{{X: x, Y: y}, {X: x, Y: f.Neg(y)}} {
+			if ad.cof != nil {
+				p = c.Mul(ad.cof, p)
+			}
+			if p.Inf || !c.OnCurve(p) || !c.Mul(c.R, p).Inf {
+				continue
+			}
+			out = append(out, p)
+		}
+	}
+	return out
+}
+
+// specialCase: operations with an operand taken from specialPointsW, oracle = plain reference arithmetic.
+func specialCase(t *rapid.T, ad *adapter, sp []curves.WPoint) {
+	sub := "special/" + ad.name
+	c := ad.wc
+	i := rapid.IntRange(0, len(sp)-1).Draw(t, "special")
+	S := sp[i]
+	rel := rapid.SampledFrom([]string{"T=S", "T=-S", "T=identity", "T=G", "T=kS", "T=other-special", "T=random", "T=random"}).Draw(t, "rel")
+	var T curves.WPoint
+	switch rel {
+	case "T=S":
+		T = S
+	case "T=-S":
+		T = c.Neg(S)
+	case "T=identity":
+		T = c.Identity()
+	case "T=G":
+		T = c.G
+	case "T=kS":
+		T = c.Mul(big.NewInt(int64(rapid.IntRange(-9, 9).Draw(t, "ks"))), S)
+	case "T=other-special":
+		T = sp[rapid.IntRange(0, len(sp)-1).Draw(t, "special2")]
+	default:
+		a, _ := drawExp(t, ad, "a")
+		T = c.MulG(a)
+	}
+	var k *big.Int
+	if rapid.Bool().Draw(t, "ksmall") {
+		k = big.NewInt(int64(rapid.IntRange(0, 40).Draw(t, "kval")))
+	} else {
+		k, _ = drawScalar(t, ad, "k")
+	}
+	kcls := sclass(k, ad.r, ad.sbytes)
+	vlib.Eval(sub)
+	vlib.Class(sub, fmt.Sprintf("special#%d(x=%s)", i, hexE(S.X)))
+	vlib.Class(sub, rel)
+	vlib.Class(sub, kcls)
+	desc := fmt.Sprintf("S=(%s) T=(%s) (%s) k=%s", wStr(S), wStr(T), rel, k.Text(16))
+	pS, pT := ad.mkW(S), ad.mkW(T)
+	if got, want := ad.enc(pS), ad.encW(S); got != want {
+		t.Fatalf("SELFTEST-FAIL %s: special point not handed over: %s vs %s", ad.name, got, want)
+	}
+	if ad.add != nil {
+		want := ad.encW(c.Add(S, T))
+		if got := ad.enc(ad.add(pS, pT)); got != want {
+			if mismatch(t, ad, "Add", "special-point", got, want, desc) {
+				return
+			}
+		}
+		if got := ad.enc(ad.add(pT, pS)); got != want {
+			if mismatch(t, ad, "Add", "special-point-second-operand", got, want, desc) {
+				return
+			}
+		}
+	}
+	if ad.dbl != nil {
+		if got, want := ad.enc(ad.dbl(pS)), ad.encW(c.Double(S)); got != want {
+			if mismatch(t, ad, "Double", "special-point", got, want, desc) {
+				return
+			}
+		}
+	}
+	if ad.neg != nil {
+		if got, want := ad.enc(ad.neg(pS)), ad.encW(c.Neg(S)); got != want {
+			if mismatch(t, ad, "Neg", "special-point", got, want, desc) {
+				return
+			}
+		}
+	}
+	kr := new(big.Int).Mod(k, ad.r)
+	if ad.mul != nil {
+		if got, want := ad.enc(ad.mul(k, pS)), ad.encW(c.Mul(kr, S)); got != want {
+			if mismatch(t, ad, "ScalarMult", "special-point", got, want, desc) {
+				return
+			}
+		}
+	}
+	if ad.combined != nil {
+		m := big.NewInt(int64(rapid.IntRange(0, 40).Draw(t, "m")))
+		if rapid.Bool().Draw(t, "mbig") {
+			m, _ = drawScalar(t, ad, "mm")
+		}
+		want := ad.encW(c.Add(c.MulG(m), c.Mul(kr, S)))
+		if got := ad.enc(ad.combined(m, k, pS)); got != want {
+			if mismatch(t, ad, "CombinedMult", "special-point", got, want, desc+" m="+m.Text(16)) {
+				return
+			}
+		}
+	}
+	vlib.NonTrivial(sub, "special-operand", []byte(ad.name), []byte{byte(i)}, []byte(wStr(T)), k.Bytes())
+	vlib.Sample(sub, rel+"/"+kcls, ad.name+": "+desc)
+}
+
+func runSpecialW(t *testing.T, ad *adapter, nq int) {
+	t.Run(ad.name+"-special-points", func(t *testing.T) {
+		sp := specialPointsW(ad)
+		if len(sp) < 4 {
+			t.Fatalf("SELFTEST-FAIL %s: only %d special points", ad.name, len(sp))
+		}
+		vlib.Check(t, vlib.N(nq, 4*nq), func(t *rapid.T) { specialCase(t, ad, sp) })
+	})
 }
